@@ -17,7 +17,7 @@ const DATA: u32 = 0x430200;
 const CELL: u32 = 0x430300;
 const STACK: u32 = 0x4f0000;
 
-pub const ALPHABET: [&str; 27] = [
+pub const ALPHABET: [&str; 35] = [
     "cmd:pause",
     "cmd:start",
     "cmd:stop",
@@ -45,6 +45,16 @@ pub const ALPHABET: [&str; 27] = [
     "ioport:1",
     "ioport:1:zz",
     "foo:bar",
+    // fields that are too wide for their type but whose low bits are a valid port / byte / address: malformed, ignored
+    "ioport:101:5a",
+    "ioport:1:15a",
+    "u8:100430300:77",
+    "u8:430300:100000066",
+    "ioport:100000001:ff",
+    "u8:1430300:11",
+    // leading zeros are still numbers
+    "u8:0430300:88",
+    "u8:430301:099",
 ];
 
 pub const SMALL: [&str; 6] = ["cmd:pause", "cmd:start", "u8:430300:11", "u8:430300:22", "cmd:a:b", "ioport:1:f0"];
@@ -678,7 +688,7 @@ pub fn c18(tier: Tier, _seed: u64) -> Prop {
             "every OS-thread schedule of the receive worker appears to run() as some partition of the line sequence into per-iteration batches (the only shared object is an mpsc channel drained by try_iter), so enumerating partitions covers the schedules as far as the property can observe them".into(),
             "the instant at which a line takes effect (which loop iteration) is timing, not constrained; pause edges are checked with one instruction of slack".into(),
             "the TCP part samples OS schedules (inputs are enumerated); non-UTF-8 input bytes are outside the alphabet".into(),
-            "bounds: sequences <= 3 over 27 lines, <= 5 over a 6-line alphabet (quick); <= 4 / <= 7 (thorough)".into(),
+            "bounds: sequences <= 3 over 35 lines, <= 5 over a 6-line alphabet (quick); <= 4 / <= 7 (thorough)".into(),
         ],
         units,
         extra: Box::new(|m| {
